@@ -1,6 +1,6 @@
 //! unit: u11
 //! novaclemmas: lemmas live in nested modules (probe scope); their preconditions are index ranges only
-//! properties: C11
+//! properties: C11 C02 C08
 //! note: confirmation thresholds of both OnchainEventEntry types (channelmonitor.rs, onchaintx.rs)
 //! trusted: assume_specification for core::cmp::max / core::cmp::min (their std definitions); foreign payload types (Txid, BlockHash, Transaction, HTLCSource, PaymentHash, PaymentPreimage, Amount, OutPoint, TxOut) are opaque structs; SpendableOutputDescriptor / DelayedPaymentOutputDescriptor are skeletons keeping the fields the code reads
 //! trusted: u11b: ChannelMonitorImpl is a self skeleton (R5) with the fields blocks_disconnected touches; OnchainTxHandler::blocks_disconnected/transaction_unconfirmed, cancel_prev_commitment_claims, closure_conf_target, queue_latest_holder_commitment_txn_for_broadcast are external_body with the frame "does not touch best_block / onchain_events_awaiting_threshold_conf" assumed (they only read best_block); Txid equality is spec equality; R6e for Vec::retain
@@ -78,6 +78,27 @@ impl OnchainEventEntry {
     best_block.height + 1 >= self.confirmation_threshold()
 //@end
 }
+// which awaiting events block_confirmed turns into actions (fail-back upstream, spendable outputs): deep R15 slice of its partition predicate,
+// checked against the proved contract of has_reached_confirmation_threshold
+pub struct MonitorSkeleton { pub best_block: BlockLocator }
+impl MonitorSkeleton {
+//@extract lightning/src/chain/channelmonitor.rs :: impl ChannelMonitorImpl :: fn block_confirmed
+//@slice R15
+    self.onchain_events_awaiting_threshold_conf.drain(..).partition( |entry| $pred);
+//@with
+    fn event_matures_now(&self, entry: &OnchainEventEntry) -> bool { $pred }
+//@ret r
+//@requires
+    1 <= entry.height <= 0x7fff_ffff
+//@ensures P C11,C02,C08 an-on-chain-conclusion-is-acted-upon-only-once-it-is-buried-by-the-anti-reorg-depth-and-its-csv-delay
+    r ==> self.best_block.height as int - entry.height as int + 1 >= ANTI_REORG_DELAY,
+//@mutant matures_against_the_events_own_height
+    entry.has_reached_confirmation_threshold(&self.best_block)
+//@with
+    entry.has_reached_confirmation_threshold(&BlockLocator::new(self.best_block.block_hash, entry.height + ANTI_REORG_DELAY))
+//@end
+}
+
 }
 
 mod onchaintx {
